@@ -6,11 +6,15 @@ import lib_doc as L
 from framework import Result
 
 ID = 'C01'
-LEAN_TARGETS = ['TexSoupProofs.Properties.C01', 'TexSoupProofs.Properties.C02Strings', 'TexSoupProofs.Properties.C13Positions']
+LEAN_TARGETS = ['TexSoupProofs.Properties.C01', 'TexSoupProofs.Properties.C02Strings', 'TexSoupProofs.Properties.C13Positions',
+                'TexSoupProofs.Properties.C01Grammar']
 THEOREMS = ['TexSoup.C01.roundtrip', 'TexSoup.C01.roundtrip_tolerant', 'TexSoup.C01.node_text_is_its_tokens',
-            'TexSoup.C02.document_parses', 'TexSoup.C02.document_roundtrip', 'TexSoup.C13.node_first_char']
-PARTIAL = ['"parsing succeeds" is proved for the documents of the Lean grammar (C02.document_parses / document_roundtrip: '
-           'token-level completeness composed with the tokenizer inverse); that gen_doc.py (the Python description of '
+            'TexSoup.C02.document_parses', 'TexSoup.C02.document_roundtrip', 'TexSoup.C13.node_first_char',
+            'TexSoup.C01G.document_roundtrip', 'TexSoup.C01G.source_roundtrip', 'TexSoup.C01G.document_roundtrip_spaced']
+PARTIAL = ['the property in its own words is C01G.document_roundtrip: every well-formed document of the Lean grammar with adjacent '
+           'argument groups (squeezeD d = d) and plainly written environment names parses, in both modes, to its tree, and '
+           'the tree prints as the source (token-level completeness composed with the tokenizer inverse and the '
+           'serialisation lemma); that gen_doc.py (the Python description of '
            '"well-formed document") only emits documents of that grammar is not proved but compared on every run; '
            'restrictions of the proved grammar: single-token environment names, no continuation arguments after a '
            'fixed-signature command']
